@@ -350,6 +350,16 @@ func c18(x *mon.Ctx) {
 				w.Q.Body[328+48*i+b/8] ^= 1 << uint(b%8)
 				w.Requote()
 				add(w, world.LBase, fmt.Sprintf("rtmr%d-bitflip", i), fmt.Sprint("bit", b), ref.Policy{}, measured[i], false)
+				if b%16 == (i*3)%step {
+					// the same flipped register under a policy that lists four RTMR expectations and leaves THIS register's entry
+					// empty ("any value"), the others pinned to what the quote says: what the policy does not pin the log still has to reproduce
+					q2, _ := ref.ParseQuote(w.Q.Bytes())
+					p := ref.Policy{Rtmrs: [][]byte{q2.Rtmrs[0], q2.Rtmrs[1], q2.Rtmrs[2], q2.Rtmrs[3]}}
+					p.Rtmrs[i] = []byte{}
+					add(w, world.LBase, fmt.Sprintf("rtmr%d-bitflip-unpinned-by-policy", i), fmt.Sprint("bit", b, "/empty-entry"), p, measured[i], false)
+					p2 := ref.Policy{Rtmrs: [][]byte{nil, nil, nil, nil}}
+					add(w, world.LBase, fmt.Sprintf("rtmr%d-bitflip-unpinned-by-policy", i), fmt.Sprint("bit", b, "/four-nil-entries"), p2, measured[i], false)
+				}
 			}
 		}
 		// special register values on a correctly re-signed quote: all-zero ("never extended"), all-ones, another register's value
